@@ -128,6 +128,40 @@ pub fn corpus(tier: Tier) -> Vec<(String, String)> {
             out.push((format!("gen:{}", j.site), print_program(&p, n).text));
         }
     }
+    // wide and deep programs: anything that is exponential in a width or recursive in a depth shows
+    // up as a missed deadline or a stack overflow
+    {
+        let n = 40;
+        let mut src = String::from("struct W {");
+        for k in 0..n {
+            src.push_str(&format!(" f{k}: u8,"));
+        }
+        src.push_str(" }\nenum V {");
+        for k in 0..n {
+            src.push_str(&format!(" V{k}(u8, bool),"));
+        }
+        src.push_str(" }\npub fn main(w: W, v: V, t: (u8, u8, u8, u8, u8, u8, u8, u8, u8, u8, u8, u8)) -> u8 {\n  let W { f3, f5, .. } = w;\n  let (a, b, _, _, _, _, _, _, _, _, _, c) = t;\n  match (v, w) {\n    (V::V5(x, true), W { f1: 0u8, f2: 1u8..=9u8, .. }) => x + f3,\n    (V::V6(y, _), W { f39: 7u8, .. }) => y / f5,\n    _ => a ^ b ^ c,\n  }\n}\n");
+        out.push(("hand:wide-struct-enum-tuple".into(), src));
+        let depth = 40;
+        let mut e = String::from("x");
+        for k in 0..depth {
+            e = format!("({e} ^ {}u8)", k % 7);
+        }
+        let mut blocks = String::new();
+        for _ in 0..25 {
+            blocks.push_str("{ ");
+        }
+        blocks.push_str("x");
+        for _ in 0..25 {
+            blocks.push_str(" }");
+        }
+        let mut ifs = String::from("x");
+        for k in 0..20 {
+            ifs = format!("if x > {k}u8 {{ {ifs} }} else {{ {k}u8 }}");
+        }
+        let chain: Vec<String> = (0..60).map(|k| format!("(x & {}u8)", k + 1)).collect();
+        out.push(("hand:deep-nesting".into(), format!("pub fn main(x: u8) -> u8 {{\n  let a = {e};\n  let b = {blocks};\n  let c = {ifs};\n  let d = {};\n  a ^ b ^ c ^ d\n}}\n", chain.join(" ^ "))));
+    }
     out.push((
         "hand:consts-literal".into(),
         "const A: usize = 2usize;\nconst B: usize = A + 1usize;\nconst C: usize = max(A, B) - 1usize;\nconst D: u8 = 3u8;\nconst E: u8 = min(D, 9u8) + D;\nconst F: bool = true;\nconst G: bool = F;\nconst H: i8 = -5i8;\nconst I: i8 = H - 1i8;\npub fn main(x: [u8; C], y: [i8; B]) -> (u8, i8, bool) {\n  let mut s = E;\n  for e in x {\n    s = s ^ e;\n  }\n  (s + D, y[A] + I, G ^ F)\n}\n".into(),
@@ -200,6 +234,7 @@ pub fn run(tier: Tier) -> i32 {
     let mut skipped_slow: Vec<String> = vec![];
     corp.retain(|(name, text)| {
         let t0 = Instant::now();
+        set_context(&format!("corpus program {name}\n{text}"));
         let _ = catch(|| garble_lang::compile(text).map(|_| ()));
         let slow = t0.elapsed() > Duration::from_millis(250);
         if slow {
